@@ -68,6 +68,10 @@ unsafe impl Sync for Session {}
 
 impl Drop for Session {
     fn drop(&mut self) {
-        let _ = self.abort_transaction();
+        // Only a transaction that was neither committed nor rolled back is rolled back here: an
+        // ABORT record after the COMMIT of a finished transaction would revoke it at recovery.
+        if self.ctx.is_open() {
+            let _ = self.abort_transaction();
+        }
     }
 }
